@@ -73,8 +73,10 @@ def mapAtoms (f : Rat → R Rat) : List Atom → R (List Atom)
       let t' ← mapAtoms f t
       .ok (a :: t')
 
-/-- `value.unit = node.units_raw; value.convert(self.units_raw, env)` -/
-def convertVal (P : Params) (ty : Ty) (u0 uk : Option Str) (v : Val) : R Val :=
+/-- "the value converted into the definition's unit": `value.unit = node.units_raw;
+    value.convert(self.units_raw, env)` for numeric types; a unit behind a bool / str value, or
+    behind a value for a node defined without unit, is rejected -/
+def convertG (conv : Str → Str → Rat → R Rat) (ty : Ty) (u0 uk : Option Str) (v : Val) : R Val :=
   match ty with
   | .int | .float =>
     match u0, uk with
@@ -83,14 +85,20 @@ def convertVal (P : Params) (ty : Ty) (u0 uk : Option Str) (v : Val) : R Val :=
       else match v with
         | .none => .ok v
         | .scalar (.num q) => do
-            let q' ← P.conv b a q
+            let q' ← conv b a q
             .ok (.scalar (.num q'))
         | .scalar _ => .error .fail
         | .array sh el => do
-            let el' ← mapAtoms (P.conv b a) el
+            let el' ← mapAtoms (conv b a) el
             .ok (.array sh el')
-    | _, _ => .ok v
-  | _ => .ok v
+    | none, some _ => .error .fail       -- "defined without units and cannot be assigned a value with units"
+    | _, none => .ok v
+  | _ =>
+    match uk with
+    | some _ => .error .fail             -- "does not support units"
+    | none => .ok v
+
+def convertVal (P : Params) (ty : Ty) (u0 uk : Option Str) (v : Val) : R Val := convertG P.conv ty u0 uk v
 
 def kindTy : Kind → Option Ty
   | .typed t => some t
